@@ -34,7 +34,7 @@ HASH_SEEDS = ("1", "31337", "4000000000")
 
 
 def generate(rng, focus, tier="quick"):
-    cfg, market = sl.gen_config(rng, "C14", tier)
+    cfg, market = sl.gen_config(rng, "C18", tier)
     others = []
     for _ in range(rng.randrange(1, 4)):
         c2, _m = sl.gen_config(random.Random(rng.randrange(1 << 30)), "C14", tier)
@@ -252,9 +252,38 @@ def _run(plan, ctx, child):
             return second if second[0] != first[0] else first
         d8, p8 = forked(variant_h)
         ctx.fault("many_orders_on_another_broker_before")
+    # (i) uninitialised memory made visible: numpy's empty()/empty_like() hand out arrays filled with a sentinel
+    #     instead of whatever the allocator left there; a result that reads such cells before writing them differs
+    def variant_i():
+        import numpy as np
+        real_empty, real_empty_like = np.empty, np.empty_like
+
+        def _poison(arr):
+            try:
+                if arr.dtype.kind == "f":
+                    arr.fill(7.25e11)
+                elif arr.dtype.kind in "iu":
+                    arr.fill(77)
+            except Exception:
+                pass
+            return arr
+
+        def empty(*a, **k):
+            return _poison(real_empty(*a, **k))
+
+        def empty_like(*a, **k):
+            return _poison(real_empty_like(*a, **k))
+        np.empty, np.empty_like = empty, empty_like
+        try:
+            return plain_digest(cfg, market, uuid_seed=us + 40)
+        finally:
+            np.empty, np.empty_like = real_empty, real_empty_like
+    d9, p9 = forked(variant_i)
+    ctx.fault("uninitialised_memory_poisoned")
     base, base_parts = plain_digest(cfg, market, uuid_seed=us)
     ctx.event("base")
-    variants = [("after_sessions_on_other_market_data", d5, p5)]
+    variants = [("after_sessions_on_other_market_data", d5, p5),
+                ("with_uninitialised_numpy_memory_poisoned", d9, p9)]
     if d8 is not None:
         variants.append(("after_many_orders_on_another_broker_in_the_process", d8, p8))
     # (a) again in the same process with fresh objects
@@ -270,7 +299,7 @@ def _run(plan, ctx, child):
             variants.append(("same_process_reusing_universe_and_alpha_objects_run_%d" % (k + 1), dk, pk))
         ctx.fault("user_input_objects_reused")
     # (b) shared, memoised data source with a history of other sessions and ad-hoc queries + cache clears
-    dirpath = mk.scratch_dir()
+    dirpath = mk.scratch_dir(cfg.get("dir_suffix", ""))
     try:
         mk.write_market(market, dirpath)
         try:
